@@ -831,3 +831,44 @@ def replay(ctx, rp):
         print(f" step {k}:", o)
     print("PySpark reports:", r.get("spark_names") or r.get("spark") or _py_names(prog, len(prog["ops"])))
     return 0
+
+
+# ------------------------------------------------------------------------------------------------
+# names outside the Coq model's identifier syntax (sqlglot's exotic parses): implementation vs PySpark recording only
+# ------------------------------------------------------------------------------------------------
+EXOTIC = [
+    {"tag": "literal-word", "names": ["true", "zz"], "ops": []},
+    {"tag": "literal-word", "names": ["False", "zz"], "ops": [("select", [("str", "false")])]},
+    {"tag": "literal-word", "names": ["null", "zz"], "ops": [("select", [("col", "NULL")])]},
+    {"tag": "literal-word", "names": ["Null", "zz"], "ops": [("withColumnRenamed", "null", "Q")]},
+    {"tag": "all-digits", "names": ["9", "zz"], "ops": [("select", [("col", "9")])]},
+    {"tag": "all-digits", "names": ["zz"], "ops": [("withColumn", "12", "zz")]},
+    {"tag": "dotted", "names": ["a.b", "zz"], "ops": []},
+    {"tag": "dotted", "names": ["a.B", "zz"], "ops": [("select", [("col", "`A.b`")])]},
+    {"tag": "dotted", "names": ["zz"], "ops": [("withColumn", "x.Y", "zz")]},
+    {"tag": "dotted", "names": ["zz"], "ops": [("select", [("alias", "zz", "x.Y")])]},
+]
+
+
+def run_exotic(ctx, session, F):
+    path = os.path.join(core.VERIF, "oracle", "c10_pyspark_exotic.jsonl")
+    if not os.path.exists(path):
+        ctx.broken("spec-conformance", "oracle/c10_pyspark_exotic.jsonl is missing")
+        return 0
+    n = 0
+    for line in open(path):
+        r = json.loads(line)
+        prog = {"names": r["names"], "ops": [_tup(o) for o in r["ops"]]}
+        want = r["steps"][-1]
+        if "error" in want:
+            continue                                   # PySpark rejects the program: nothing is promised
+        got = run_program(session, F, prog)[-1]
+        n += 1
+        ok = "error" not in got and all(got[v] == want["columns"] for v in VIEWS) and len(got) and \
+            got.get("receiver_after") == got.get("receiver_before")
+        if not ok:
+            ctx.deviation(f"C10/exotic-{r['tag']}-name", f"{prog_str(prog)}: sqlframe {got.get('error') or {v: got[v] for v in VIEWS}}; "
+                          f"PySpark reports {want['columns']}",
+                          {"program": prog_str(prog), "names": prog["names"], "ops": [list(o) for o in prog["ops"]],
+                           "implementation": got, "spark_names": want["columns"]})
+    return n
